@@ -28,6 +28,7 @@ import (
 )
 
 type report struct {
+	f        *os.File
 	w        *bufio.Writer
 	hist     map[string]int
 	counters map[string]int
@@ -40,13 +41,20 @@ func newReport(path string) *report {
 	if err != nil {
 		panic(err)
 	}
-	return &report{w: bufio.NewWriter(f), hist: map[string]int{}, counters: map[string]int{}, fails: map[string]string{}}
+	return &report{f: f, w: bufio.NewWriter(f), hist: map[string]int{}, counters: map[string]int{}, fails: map[string]string{}}
 }
 
 func (r *report) fail(sig, detail string) {
 	detail = strings.ReplaceAll(detail, "\n", "\\n")
 	if old, ok := r.fails[sig]; !ok || len(detail) < len(old) {
 		r.fails[sig] = detail
+	}
+}
+
+func must(err error, what string) {
+	if err != nil {
+		fmt.Fprintf(os.Stderr, "harness I/O error (%s): %v\n", what, err)
+		os.Exit(3)
 	}
 }
 
@@ -78,7 +86,10 @@ func (r *report) close() {
 	for _, s := range r.samples {
 		fmt.Fprintf(r.w, "SAMPLE %s\n", strings.ReplaceAll(s, "\n", "\\n"))
 	}
-	r.w.Flush()
+	// the summary is complete only with this marker (a truncated file is not a clean run)
+	fmt.Fprintf(r.w, "END %d\n", len(r.counters)+len(r.hist)+len(r.fails)+len(r.samples))
+	must(r.w.Flush(), "summary flush")
+	must(r.f.Close(), "summary close")
 }
 
 func envInt(name string, def int) int {
@@ -131,9 +142,25 @@ func snapPhase(rep *report, seed uint64, models, nops, only int) {
 		}
 		r := modelRng(seed, idx)
 		w := buildWorld(r, idx, idx%4 == 3)
-		t := newOpTable(w)
 		roots := w.roots()
+		hPre, _ := snapshotHash(roots)
+		// enumerating the receivers calls getters (CANIDBuilder(), AttributeAssignments(), Values(),
+		// SignalLayout(), Filters(), Decode): the first reads after construction are bracketed too
+		t := newOpTable(w)
 		h0, cnt := snapshotHash(roots)
+		if h0 != hPre {
+			r2 := modelRng(seed, idx)
+			w2 := buildWorld(r2, idx, idx%4 == 3)
+			roots2 := w2.roots()
+			before := snapshotLines(roots2)
+			newOpTable(w2)
+			after := snapshotLines(roots2)
+			field, detail := "unreproduced", "the write did not reproduce on the rebuilt model"
+			if d := diffLines(before, after); d != "" {
+				field, detail = changedField(before, after), d
+			}
+			rep.fail("snapshot-write:"+field, fmt.Sprintf("model=%d: the FIRST read-only calls after construction (CANIDBuilder(), AttributeAssignments(), Values(), SignalLayout(), Filters(), Decode on every object) wrote shared state: %s", idx, detail))
+		}
 		g0 := globalHashes(roots)
 		rep.counters["snap_models"]++
 		rep.counters["snap_fields"] += cnt
@@ -227,7 +254,7 @@ func findSnapDiff(seed uint64, idx, k, nops int) (string, string) {
 // values) and every kind of entity; each goroutine starts with a deep String / export / save and
 // continues with the seeded mix.  The sequential reference is computed AFTERWARDS.
 func coldPhase(rep *report, seed uint64, models, nops int) {
-	const T = 8
+	const T = 12
 	rep.counters["gomaxprocs"] = runtime.GOMAXPROCS(0)
 	for idx := 0; idx < models; idx++ {
 		r := modelRng(seed^0xC01D, idx)
@@ -276,10 +303,46 @@ func coldPhase(rep *report, seed uint64, models, nops int) {
 		if len(ovfMsgs) > 0 {
 			rep.counters["cold_rounds_with_overflow_builder_messages"]++
 		}
+		// buses reset with SetCANIDBuilder(nil) as the last construction step: nobody has read them yet
+		var resetMsgs []int
+		for mi, b := range w.msgBus {
+			for _, rb := range w.resetBuses {
+				if b == rb {
+					resetMsgs = append(resetMsgs, t.byLab["msg"][mi])
+				}
+			}
+		}
+		if len(w.resetBuses) > 0 {
+			rep.counters["cold_rounds_with_nil_reset_bus"]++
+		}
 		for g := 0; g < T; g++ {
 			gr := r.fork(uint64(g + 1))
 			var first roOp
-			switch g % 8 {
+			switch g % 12 {
+			case 8:
+				if len(w.resetBuses) > 0 {
+					if op, ok := methodOf(t.byLab["bus"][w.resetBuses[0]], "CANIDBuilder"); ok {
+						first = op
+						break
+					}
+				}
+				first = stringOf(netIdx)
+			case 9:
+				if len(resetMsgs) > 0 {
+					if op, ok := methodOf(resetMsgs[gr.intn(len(resetMsgs))], "GetCANID"); ok {
+						first = op
+						break
+					}
+				}
+				first = roOp{free: 2, desc: "ExportToMarkdown(net)", class: "ExportToMarkdown"}
+			case 10:
+				if len(w.resetBuses) > 0 {
+					first = stringOf(t.byLab["bus"][w.resetBuses[0]])
+				} else {
+					first = stringOf(netIdx)
+				}
+			case 11:
+				first = roOp{free: 5, recv: 7, method: 0, desc: "SaveNetwork(net,enc=7,all writers fail)", class: "SaveNetworkFailingWriters"}
 			case 1, 7:
 				if len(ovfMsgs) > 0 {
 					if op, ok := methodOf(ovfMsgs[gr.intn(len(ovfMsgs))], "GetCANID"); ok {
